@@ -215,6 +215,13 @@ def one_update(world, prefix, op, counters, digests, violations, known, rng, sam
         try:
             ls.runner.exec_op(op)
         except Exception as exc:
+            if kf3_hit and kf.is_open("KF3", ID) and isinstance(exc, (ArithmeticError, ValueError)) and not C.is_injected(exc):
+                # KF3: the interrupted linear knob left its targets off by one increment; an expression evaluated on such a
+                # value may be undefined there (0.0 ** -1, ...) although it is defined on the value the knob prescribes
+                known.append(kf.known("KF3"))
+                counters["kf3_crash_points"] = counters.get("kf3_crash_points", 0) + 1
+                counters["kf3_repeat_raised_on_the_wrong_value"] = counters.get("kf3_repeat_raised_on_the_wrong_value", 0) + 1
+                continue
             violations.append(dict(wit, what="C18 repeating the assignment after the failure raised %s: %s" % (
                 type(exc).__name__, str(exc)[:200])))
             return
